@@ -136,14 +136,15 @@ CHECKS["C04"] = dict(
 CHECKS["C06"] = dict(
     engine="Z", category="other",
     text="bounded symbolic verification of the ONE solver-checkable sentence of C06 - the advertised safe explicit-Euler step: the real "
-         "closure returned by get_odesys is executed with a symbolic state y >= 0 and an ARBITRARY symbolic derivative vector (f_cb "
-         "stubbed), upper bounds from the real upper_conc_bounds (infinite for species without elemental composition); z3 proves "
+         "closure returned by get_odesys is executed with a symbolic state y >= 0 and the derivative N^T r for ARBITRARY non-negative "
+         "reaction rates r (f_cb stubbed; superset of the mass-action right-hand side); the elemental upper bound is written independently "
+         "from the compositions (infinite for species without elemental composition); z3 proves "
          "0 <= h <= 1 and 0 <= y_i + h*f_i <= ub_i on every path, for the answer to a query that follows an earlier query of the same "
          "callback for another state and for the same query repeated on the caller's own array",
     note="NOT claimed (not applicable to this technique): agreement of integrated trajectories with matrix exponentials / closed forms, "
          "non-negativity of integrated trajectories - these run inside LSODA/CVODE through pyodesys where no symbolic value survives; "
-         "stubs: odesys.to_arrays/pre_process identity, f_cb arbitrary reals, upper_conc_bounds called with dtype=object; systems with "
-         "<= 4 (thorough 6) substances",
+         "stubs: odesys.to_arrays/pre_process pass-through, f_cb = N^T r with r >= 0, upper_conc_bounds called with dtype=object; systems "
+         "with <= 5 substances",
     technique=Z, ref="DESIGN.md section 5 C06")
 
 CHECKS["C08"] = dict(
